@@ -17,6 +17,9 @@ HMapKinds ==
                                         res |-> CallOutcome(m.out.hl, HNames, {nm(i)}, FALSE)]]
            \o [i \in DOMAIN names |-> [kind |-> "dup", name |-> nm(i),
                                         res |-> CallOutcome(m.out.hl, HNames, {}, TRUE)]]
+           \* the same name supplied in two spellings neither of which is the normalised one
+           \o [i \in DOMAIN names |-> [kind |-> "dup2", name |-> nm(i),
+                                        res |-> CallOutcome(m.out.hl, HNames, {}, TRUE)]]
 
 Emit == SDone => PrintT(ToJson([scn |-> scn, o |-> m.out, ev |-> m.ev, defs |-> m.defs, hmaps |-> HMapKinds]))
 =========================================================================
